@@ -129,8 +129,8 @@ CHECKS = {
         design="DESIGN.md §4 C12",
     ),
     "C15": dict(
-        rules="R15.0-R15.12",
-        what="int/float/fixed-width primitive bindings agree with their C signatures and error kinds; a primitive whose result type has no spare error value (error_overlap) never declares plain ERR_MAGIC; each operator spelling of int/float primitives is bound to that operator's C function; every raw C division/modulo IntOp is emitted under a zero(-1)-excluding guard; every Truncate of a possibly out-of-range value is dominated by the two-sided range check; the inline fast path of tagged-int multiplication cannot wrap under its guard (interval arithmetic on the guard's constant bounds, from clang's expression trees); a boxed int is built only under a does-not-fit test; raw C shifts of native ints are emitted only after a count check (known finding); literal arguments of explicit conversions are not folded by masking (known finding); a floored quotient is snapped to the nearest integer (float //); binary_op hands both operands on left-before-right except for containment (R15.12)",
+        rules="R15.0-R15.13",
+        what="int/float/fixed-width primitive bindings agree with their C signatures and error kinds; a primitive whose result type has no spare error value (error_overlap) never declares plain ERR_MAGIC; each operator spelling of int/float primitives is bound to that operator's C function; every raw C division/modulo IntOp is emitted under a zero(-1)-excluding guard; every Truncate of a possibly out-of-range value is dominated by the two-sided range check; the inline fast path of tagged-int multiplication cannot wrap under its guard (interval arithmetic on the guard's constant bounds, from clang's expression trees); a boxed int is built only under a does-not-fit test; raw C shifts of native ints are emitted only after a count check (known finding); literal arguments of explicit conversions are not folded by masking (known finding); a floored quotient is snapped to the nearest integer (float //); binary_op hands both operands on left-before-right except for containment (R15.12); a literal left operand of an emitted C shift is cast to the result's C type (R15.13)",
         quant="operator x operand type x boundary values",
         technique="cross-language table check against clang's AST; guard-chain and CFG dominance checks in the IR builder",
         note="Apart from R15.3 (one interval argument over two constants) no value is computed: bit-exactness of the CPyTagged_* helpers needs operand enumeration or a solver (other technique families). R15.3 assumes LP64.",
